@@ -190,6 +190,24 @@ W_RULES = [
     ('W.nfc_collect', re.compile(r'\.nfc\(\)\s*\.collect::<String>\(\)'), lambda r, mo: 'vx_nfc_collect(&%s)' % r),
     ('W.nfkc_collect', re.compile(r'\.nfkc\(\)\s*\.collect::<String>\(\)'), lambda r, mo: 'vx_nfkc_collect(&%s)' % r),
 ]
+def w_rewrite_str(s, counts):
+    """Apply the W-rules inside an expression string (used for receivers of an outer rewrite)."""
+    for _ in range(20):
+        m = rs.mask(s)
+        done = True
+        for rid, rx, build in W_RULES:
+            h = rx.search(m)
+            if h:
+                st = recv_start(m, h.start())
+                s = s[:st] + build(s[st:h.start()], re.match(rx, s[h.start():h.end()]) or h) + s[h.end():]
+                counts[rid] = counts.get(rid, 0) + 1
+                done = False
+                break
+        if done:
+            break
+    return s
+
+
 W_PREFIX_RULES = [
     ('W.is_nfc', re.compile(r'\bunicode_normalization::is_nfc\('), 'vx_is_nfc('),
     ('W.is_nfkc', re.compile(r'\bunicode_normalization::is_nfkc\('), 'vx_is_nfkc('),
@@ -324,7 +342,7 @@ class Emitter:
             while m[rt_b - 1].isspace():
                 rt_b -= 1
             ins(rt_a, [sup('(%s: ' % f.ret)])
-            ins(rt_b, [sup(')')])
+            ins(rt_b, [sup(')')], seq=20)
         # ---- contract clauses before the body
         cl = []
 
@@ -467,7 +485,7 @@ class Emitter:
                     rs_ = recv_start(m, h.start())
                     if any(not (h.end() <= x or rs_ >= y) for x, y in taken):
                         continue
-                    recv = text[rs_:h.start()]
+                    recv = w_rewrite_str(text[rs_:h.start()], self.rewrite_counts)
                     rep(rs_, h.end(), [Chunk(build(recv, re.match(rx, text[h.start():h.end()]) or h), 'rewrite', item=item)])
                     taken.append((rs_, h.end()))
                     self.rewrite_counts[rid] = self.rewrite_counts.get(rid, 0) + 1
